@@ -40,7 +40,7 @@ type builtCirc struct {
 
 // buildOp builds the circuit of one builder call. For the dividers both results are requested
 // from one builder call when both is set (quotient in the first wz outputs, remainder in the rest).
-func buildOp(op string, wx, wy, wz int, target utils.Target, both bool, prune bool) (c *circuit.Circuit, err error) {
+func buildOp(op string, wx, wy, wz int, target utils.Target, both bool, prune bool, konst ...int) (c *circuit.Circuit, err error) {
 	defer func() {
 		if x := recover(); x != nil {
 			err = fmt.Errorf("builder panics: %v", x)
@@ -129,6 +129,17 @@ func buildOp(op string, wx, wy, wz int, target utils.Target, both bool, prune bo
 		err = circuits.Hamming(cc, x, y, z)
 	case "mux":
 		err = circuits.NewMUX(cc, x[0:1], y[0:wz], y[wz:2*wz], z)
+	case "index1", "index2", "index3":
+		err = circuits.NewIndex(cc, wz, x, y, z)
+	case "land":
+		err = circuits.NewLogicalAND(cc, x, y, z)
+	case "lor":
+		err = circuits.NewLogicalOR(cc, x, y, z)
+	case "bts":
+		// the bit number is a compile-time constant: one circuit per value (y is an unused input)
+		err = circuits.NewBitSetTest(cc, x, types.Size(konst[0]), z)
+	case "btc":
+		err = circuits.NewBitClrTest(cc, x, types.Size(konst[0]), z)
 	default:
 		return nil, fmt.Errorf("unknown op %s", op)
 	}
@@ -183,18 +194,31 @@ func c07Tables(args []string) error {
 		res := &Result{Case: idx, Nontrivial: ac.Wx+ac.Wy >= 4, Class: ac.Op}
 		idx++
 		for _, tg := range targets {
-			c, err := buildOp(ac.Op, ac.Wx, ac.Wy, ac.Wz, tg.t, false, idx%2 == 0)
+			c, err := buildOp(ac.Op, ac.Wx, ac.Wy, ac.Wz, tg.t, false, idx%2 == 0, 0)
 			if err != nil {
 				res.viol(fmt.Sprintf("builder-error:%s:%s:%d,%d,%d", ac.Op, tg.name, ac.Wx, ac.Wy, ac.Wz), "%s (%d,%d)->%d on %s: %v", ac.Op, ac.Wx, ac.Wy, ac.Wz, tg.name, err)
 				continue
 			}
 			bad, first := 0, ""
+			perConst := map[int]*circuit.Circuit{}
 			for i, want := range ac.Table {
 				if want < 0 {
 					continue
 				}
 				x := i >> uint(ac.Wy)
 				y := i & (1<<uint(ac.Wy) - 1)
+				if ac.Op == "bts" || ac.Op == "btc" {
+					// y is the constant bit number: its own circuit
+					if perConst[y] == nil {
+						cy, err := buildOp(ac.Op, ac.Wx, ac.Wy, ac.Wz, tg.t, false, idx%2 == 0, y)
+						if err != nil {
+							res.viol(fmt.Sprintf("builder-error:%s:%s:%d,%d,%d", ac.Op, tg.name, ac.Wx, ac.Wy, ac.Wz), "%s (%d, bit %d) on %s: %v", ac.Op, ac.Wx, y, tg.name, err)
+							break
+						}
+						perConst[y] = cy
+					}
+					c = perConst[y]
+				}
 				got, err := computeXY(c, ac.Wx, big.NewInt(int64(x)), big.NewInt(int64(y)))
 				if err != nil {
 					res.viol("compute-error", "%v", err)
